@@ -21,6 +21,10 @@ Inductive tok : Set :=
 | TEnd (p : pid)
 | TSnap.
 
+(* what handing the frame f to Session.Parse means for the waiter table *)
+Definition frame_event (f : bytes) : event :=
+  match parse_notify f with Ok (Some i) => Notify i | _ => Skip end.
+
 (* the events a token stands for in state s; None = Parse panics in the model *)
 Definition events_of (classify : bytes -> res (option N)) (s : state) (t : tok) : res (list event) :=
   match t with
